@@ -1,48 +1,9 @@
 package rlwe
 
-import (
-	"github.com/tuneinsight/lattigo/v6/ring"
-)
-
 // C04 / C11 (algebraic slot model): Galois automorphisms.  Real GenGaloisKey, Automorphism, AutomorphismHoisted,
 // AutomorphismHoistedLazy (+ModDown).  Dec_s(out) must be sigma_g(Dec_s(in)) up to key-switch noise, the hoisted and
 // lazy variants must agree with the plain one, for Galois keys at and below the maximum (LevelQ, LevelP), every
 // ciphertext level, NTT and coefficient-domain parameters.
-
-func VerifSetup_AutIndex(n int, nthRoot, galEl uint64) []uint64 {
-	idx, err := ring.AutomorphismNTTIndex(n, nthRoot, galEl)
-	if err != nil {
-		panic(err)
-	}
-	return idx
-}
-
-// vApplyAut applies sigma_g to a polynomial (NTT domain: slot permutation by the index table computed natively
-// from the definition; coefficient domain: X^i -> +-X^{i*g mod N}).
-func vApplyAut(r *ring.Ring, p ring.Poly, galEl uint64, isNTT bool) ring.Poly {
-	out := r.NewPoly()
-	if isNTT {
-		idx := VerifSetup_AutIndex(r.N(), r.NthRoot(), galEl)
-		for k := range r.SubRings[:r.Level()+1] {
-			for j := 0; j < r.N(); j++ {
-				out.Coeffs[k][j] = p.Coeffs[k][idx[j]]
-			}
-		}
-		return out
-	}
-	n := uint64(r.N())
-	for k, s := range r.SubRings[:r.Level()+1] {
-		for i := uint64(0); i < n; i++ {
-			e := (i * galEl) & (2*n - 1)
-			if e < n {
-				out.Coeffs[k][e] = p.Coeffs[k][i]
-			} else {
-				out.Coeffs[k][e-n] = s.Modulus - p.Coeffs[k][i]
-			}
-		}
-	}
-	return out
-}
 
 func vAutCase(c *vCtx, evkp EvaluationKeyParameters, galEl uint64, level int, tag string) {
 	params := c.Params
